@@ -44,6 +44,8 @@ def gen_ext(rng, k, depth=None, p_not=0.35, pool=None):
     """Extended term ('N' nodes allowed) whose full expansion is legal and well-formed."""
     if depth is None:
         depth = rng.randint(0, k.max_depth)
+    if pool and rng.random() < 0.25:
+        return rng.choice(pool)
     if depth > 0 and rng.random() < p_not:
         for _ in range(5):
             body, arity = rng.choice(notation_bodies(rng, k))
@@ -68,9 +70,12 @@ def gen_ext(rng, k, depth=None, p_not=0.35, pool=None):
             return T.ex(rng.choice(k.evars), l)
         return T.imp(l, r) if rng.random() < 0.6 else T.app(l, r)
     for _ in range(6):
-        t = gen_pattern(rng, k, depth, False, pool)
-        if T.wf_deep(t):
-            return t
+        t = gen_pattern(rng, k, depth, False, None)
+        try:
+            if T.wf_deep(expand(t)):
+                return t
+        except T.Abort:
+            continue
     return T.evar(k.evars[0])
 
 
